@@ -531,6 +531,9 @@ func main() {
 				return
 			}
 			syms := collect(q)
+			if it.Source == "calls" {
+				return // function calls at every arity are C05's inputs: renaming does not bear on them
+			}
 			base := translateWith(q, syms, renaming{}, mappers[w])
 			mu.Lock()
 			outcomes[base.kind]++
